@@ -45,6 +45,8 @@ def body_factory(tier, seed):
                                                        "observation": obs})
             return
         n = GD.run_cases(rep, cases, "C01", "C01", O.c01, async_modes=modes, view="VC01")
+        # the same CALL again and again on one endpoint (what a retrying peer does): answered the same way every time
+        GD.run_repeats(rep, cases, "C01", ("vendor", "skip-vendor", "unhandled", "after-only", "bad-req", "payload"), limit=60)
         if tier == "quick":
             # validation in worker threads for a slice of the cases
             GD.run_cases(rep, cases[::7], "C01t", "C01", O.c01, async_modes=(True,), view="VC01")
